@@ -340,6 +340,29 @@ void h_bounded_clear(void)
   /* V4 */ __CPROVER_assert(G_fired == 0, "V4 clearAllEntries fires nothing");
 }
 
+#ifdef CLEAR_MATRIX
+/* UNBOUNDED clearAllEntries: any number of levels (<= 2^10), buckets per level (power of two <= 2^10), pending entries (<= 2^20); loop contracts with witnesses
+ * (GLv, GB) = arbitrary bucket, GK = arbitrary entry of the id map. Lists may be in ANY state (clearAllEntries never follows a link). */
+void h_clear_u(void)
+{
+  TimingWheel W; IORA_TRUE = 1; GK = nondet_size_t(); GLv = nondet_size_t(); GB = nondet_size_t(); G_map_clears = 0; G_wheel_locks = 0; G_fired = 0;
+  G_shift = nondet_size_t() & 15; G_map_n = nondet_size_t();
+  __CPROVER_assume(G_shift <= 10 && W._ticksPerWheel == ((size_t)1 << G_shift) && W._numWheels >= 1 && W._numWheels <= ((size_t)1 << 10) && G_map_n <= ((size_t)1 << 20));
+  W._wheels = (WheelLevel *)malloc(W._numWheels * sizeof(WheelLevel));
+  G_bkall = (Bucket *)malloc((W._numWheels << G_shift) * sizeof(Bucket));
+  G_pool = (TimerEntry *)malloc((G_map_n + 1) * sizeof(TimerEntry));
+  __CPROVER_assume(W._wheels != NULL && G_bkall != NULL && G_pool != NULL);
+  __CPROVER_assume(GLv < W._numWheels && GB < W._ticksPerWheel);
+  const size_t n0 = G_map_n;
+  TimingWheel_clearAllEntries(&W);
+  IORA_CANARY("h_clear_u: returns");
+  /* V1u */ __CPROVER_assert(CLEARED_(GLv, GB), "V1u after clearAllEntries EVERY bucket of EVERY level is empty - any wheel geometry");
+  /* V2u */ __CPROVER_assert(G_map_n == 0 && G_map_clears == 1 && G_wheel_locks == 1 && !W._entryMap.present, "V2u the id map is cleared, under the wheel lock");
+  /* V3u */ __CPROVER_assert(!(GK < n0) || (G_pool[GK].id == InvalidTimerId && G_pool[GK].callback == NULL), "V3u EVERY pending entry is recycled and its handler released - any number of entries, with or without handler");
+  /* V4u */ __CPROVER_assert(G_fired == 0, "V4u clearAllEntries fires nothing");
+}
+#endif
+
 #ifdef IORA_SEARCH
 /* SEARCH: same bounded scenario; loop-body entries are counted (pre.h) so that a walk that does not terminate yields an input */
 void h_search(void)
